@@ -26,8 +26,9 @@ EXPLANATION = (
     "(the yielded value, or an attribute the failure handler fires/writes) unless the failure propagates to the "
     "yield; one read of the processed offset feeds both the commit request and the value later recorded; "
     "must-hold `_commit_req is None` at the send; resume position in the same arm as the committed value."
+    ' Also: the on-success recorder stores the acknowledged offset on every path whatever was recorded before (R5).'
 )
-SHARED = [('C14', ['R4'], 'the consumer leaves its position only for an out-of-range answer: no other error makes it jump, and later commit, past messages it never processed'), ('C09', ['R4'], 'a broker error on a commit surfaces as a failure (fail_on_error)'), ('C08', ['R3'], 'coordinator errors are handled, not swallowed'), ('C02', ['R6'], 'messages at or below the committed position are not redelivered after a restart'), ('C05', ['R5'], 'offsets of messages inside compressed wrappers are the log offsets: the committed offset is not ahead of what was processed')]
+SHARED = [('C13', ['R1'], 'stop() cancels a pending commit retry: a stopped consumer does not commit later'), ('C07', ['R5'], 'a commit reply that leaves the partition out is a failed commit, not an acknowledgement'), ('C14', ['R4'], 'the consumer leaves its position only for an out-of-range answer: no other error makes it jump, and later commit, past messages it never processed'), ('C09', ['R4'], 'a broker error on a commit surfaces as a failure (fail_on_error)'), ('C08', ['R3'], 'coordinator errors are handled, not swallowed'), ('C02', ['R6'], 'messages at or below the committed position are not redelivered after a restart'), ('C05', ['R5'], 'offsets of messages inside compressed wrappers are the log offsets: the committed offset is not ahead of what was processed')]
 ASSUMPTIONS = [
     "Twisted: addCallback handlers run only on success; a failure absorbed by an errback resumes the generator normally",
     "the broker acknowledges a commit iff the response error code is 0 (client.send_offset_commit_request raises otherwise)",
